@@ -150,6 +150,22 @@ def _eval_case(case):
         dec = ReadBuf(enc).read_list()
         if dec != names:
             fails.append(['namelist-decode', '%r -> %r' % (names, dec)])
+    elif k == 'kexinit_long':
+        # one very long name-list inside a whole KEXINIT: parse -> same names; write -> same bytes
+        from ssh_audit.ssh2_kex import SSH2_Kex
+        from ssh_audit.outputbuffer import OutputBuffer
+        lists = [[b'x%d' % j] for j in range(10)]
+        lists[case['field']] = [b'n%x' % i for i in range(case['n'])]
+        payload = wire.kexinit(lists[0], lists[1], lists[3], lists[5], lists[7], lists[9], enc_c=lists[2], mac_c=lists[4], comp_c=lists[6], lang_c=lists[8])
+        kex = SSH2_Kex.parse(OutputBuffer(), payload[1:])
+        got = [kex.kex_algorithms, kex.key_algorithms, kex.client.encryption, kex.server.encryption, kex.client.mac, kex.server.mac, kex.client.compression, kex.server.compression, kex.client.languages, kex.server.languages]
+        want = [[x.decode() for x in l] for l in lists]
+        nt = True
+        if got != want:
+            bad = [i for i in range(10) if got[i] != want[i]]
+            fails.append(['kexinit-fields', 'field %d with %d names: decoded lists differ in fields %r (lengths %r)' % (case['field'], case['n'], bad, [len(got[i]) for i in bad])])
+        if kex.payload != payload[1:]:
+            fails.append(['kexinit-reencode', 'field %d with %d names' % (case['field'], case['n'])])
     elif k == 'kexinit':
         from ssh_audit.ssh2_kex import SSH2_Kex
         from ssh_audit.outputbuffer import OutputBuffer
@@ -404,21 +420,25 @@ def _eval_case(case):
         if SSH1.crc32(data) != wire.ssh1_crc(data):
             fails.append(['ssh1-crc32', 'data %s: %08x != %08x' % (data.hex()[:60], SSH1.crc32(data), wire.ssh1_crc(data))])
         body = data
-        raw = wire.ssh1_packet(2, body)
-        s2, _ = _tool_socket(raw)
-        try:
-            t, b = s2.read_packet(1)
-            if t != 2 or b != body:
-                fails.append(['ssh1-packet-readback', 'len %d' % len(body)])
-        except SystemExit:
-            fails.append(['ssh1-packet-correct-crc-rejected', 'len %d' % len(body)])
-        bad = wire.ssh1_packet(2, body, bad_crc=True)
-        s3, _ = _tool_socket(bad)
-        try:
-            s3.read_packet(1)
-            fails.append(['ssh1-packet-bad-crc-accepted', 'len %d' % len(body)])
-        except SystemExit:
-            pass
+        for pad in (None, 0, 0xff, len(data) & 0xff):
+            raw = wire.ssh1_packet(2, body, pad=pad)
+            s2, _ = _tool_socket(raw)
+            try:
+                t, b = s2.read_packet(1)
+                if t != 2 or b != body:
+                    fails.append(['ssh1-packet-readback', 'len %d padding %r' % (len(body), pad)])
+            except SystemExit:
+                fails.append(['ssh1-packet-correct-crc-rejected', 'len %d padding %r' % (len(body), pad)])
+            for how in (True, 'no-padding'):
+                bad = wire.ssh1_packet(2, body, bad_crc=how, pad=pad)
+                if bad == raw:
+                    continue            # (a checksum over type + body alone is the right one when the padding is all zero)
+                s3, _ = _tool_socket(bad)
+                try:
+                    s3.read_packet(1)
+                    fails.append(['ssh1-packet-bad-crc-accepted', 'len %d padding %r checksum %s' % (len(body), pad, 'with one bit flipped' if how is True else 'computed without the padding')])
+                except SystemExit:
+                    pass
     else:
         raise ValueError(k)
     return mkres(case, nt=nt, classes=classes, fails=fails)
@@ -519,6 +539,11 @@ def run(ctx):
                 cases.append({'kind': 'send_hist', 'ops': [[5 + 11 * j, o] for j, o in enumerate(combo)] + [[3, 'reconnect'], [40, 'ok']]})
     cases += [{'kind': 'frame_ref', 'len': n, 'pad': p, 'fill': n} for n in range(1, 300 if q else 1200) for p in range(0, 4)]
     cases += [{'kind': 'frame_ref', 'len': n, 'pad': p, 'fill': n} for n in (1, 2, 3, 4, 5, 6, 7, 8, 19, 188, 1000) for p in range(0, 32)]     # every legal padding length 4..255
+    # name-lists far longer than any server sends (every boundary of a table or counter an implementation might keep)
+    for n in (255, 256, 257, 1023, 1024, 1025, 4095, 4096, 4097, 4098, 4099, 8191, 8193, 16385, 32769, 65535, 65536, 65537) + (() if q else (131073, 262145)):
+        cases.append({'kind': 'namelist', 'names': ['n%x' % i for i in range(n)]})
+        cases.append({'kind': 'namelist', 'names': ['a'] * n})
+        cases.append({'kind': 'kexinit_long', 'n': n, 'field': n % 10})
     ctx.map(cases, chunk=2000)
     f = 1 if q else 15
     ctx.hyp('strat_bigint', 20000 * f, label=1)
